@@ -219,7 +219,7 @@ def gen_done(tier, rng):
         present = sorted({a[0] for a in pop})
         for one in (0, 1):
             yield [pop, [3, one, _rand_etm(rng, present)]]
-    for _ in range(700 if quick else 20000):
+    for _ in range(2000 if quick else 20000):
         n = rng.randint(1, 6)
         encs = rng.sample([1, 2, 3, 4, 7], rng.randint(1, 4))
         cs = [(rng.randint(0, 3), rng.randint(0, 3)) for _ in range(rng.randint(1, 3))]
@@ -471,7 +471,7 @@ def _rand_refs(rng, ids, allow_bad, kind_base):
 
 def gen_smart(tier, rng):
     quick = tier != "thorough"
-    N = 1500 if quick else 30000
+    N = 6000 if quick else 40000
     for case in range(N):
         rows, cols = rng.randint(1, 4), rng.randint(2, 4)
         n = rng.randint(1, min(5, rows * cols))
